@@ -15,6 +15,7 @@ import (
 
 	"gverif/cfgx"
 	"gverif/core"
+	"gverif/engine/flagx"
 
 	"golang.org/x/tools/go/cfg"
 	"golang.org/x/tools/go/packages"
@@ -321,12 +322,21 @@ func (f *fn) prepare() {
 		}
 		return changed
 	}
-	// lquery := lwork == -1
+	// lquery := lwork == -1   (also `var lquery = lwork == -1`)
 	ast.Inspect(f.fd.Body, func(n ast.Node) bool {
 		if as, ok := n.(*ast.AssignStmt); ok && as.Tok == token.DEFINE && len(as.Lhs) == 1 && len(as.Rhs) == 1 {
 			if id, ok := as.Lhs[0].(*ast.Ident); ok {
 				if f.triState(as.Rhs[0], true) == 1 && f.triState(as.Rhs[0], false) == -1 {
 					f.lquery[f.info.Defs[id]] = true
+				}
+			}
+		}
+		if vs, ok := n.(*ast.ValueSpec); ok && len(vs.Names) == len(vs.Values) {
+			for i, id := range vs.Names {
+				if f.triState(vs.Values[i], true) == 1 && f.triState(vs.Values[i], false) == -1 {
+					if o := f.info.Defs[id]; o != nil {
+						f.lquery[o] = true
+					}
 				}
 			}
 		}
@@ -1391,7 +1401,9 @@ func (f *fn) checkOptional(checks []*check, uses []useSite, usedExempt map[strin
 		return ""
 	}
 	guards := map[types.Object]map[string]int{}
+	guardExpr := map[types.Object]map[string]ast.Expr{}
 	nchecks := map[types.Object]int{}
+	var fe *flagx.FlagEnv
 	for _, c := range checks {
 		// the innermost condition is the one that names the parameter
 		if len(c.conds) == 0 {
@@ -1422,6 +1434,14 @@ func (f *fn) checkOptional(checks []*check, uses []useSite, usedExempt map[strin
 				}
 				for _, fl := range flags {
 					guards[p][fl]++
+				}
+				for _, x := range cj {
+					if g := canon(x); g != "" && !f.mentionsLen(x, p) {
+						if guardExpr[p] == nil {
+							guardExpr[p] = map[string]ast.Expr{}
+						}
+						guardExpr[p][g] = x
+					}
 				}
 			}
 		}
@@ -1468,6 +1488,35 @@ func (f *fn) checkOptional(checks []*check, uses []useSite, usedExempt map[strin
 								ok = true
 							}
 						}
+					}
+				}
+			}
+			if !ok && strings.HasPrefix(u.what, "pass to ") {
+				// handing the operand, whole, to an unexported helper of the
+				// same package splits the routine, it does not use the
+				// operand here
+				var c *ast.CallExpr
+				for n := f.par[u.node]; n != nil && c == nil; n = f.par[n] {
+					c, _ = n.(*ast.CallExpr)
+				}
+				if c != nil {
+					if fn, _ := typeutil.Callee(f.info, c).(*types.Func); fn != nil && !fn.Exported() && fn.Pkg() == f.pkg.Types {
+						ok = true
+						f.res.Count("optional_operands_handed_to_unexported_helpers", 1)
+					}
+				}
+			}
+			if !ok {
+				// the flag may be tested in another form (a boolean derived
+				// from the same comparison): decide on the control-flow graph
+				// that the use is unreachable when the guard is false
+				if ge := guardExpr[p][G]; ge != nil {
+					if fe == nil {
+						fe = flagx.NewFlagEnv(f.info, f.fd)
+					}
+					if r, decided := fe.ReachableWhenAllFalse([]ast.Expr{ge}, []ast.Node{u.node}); decided && len(r) == 0 {
+						ok = true
+						f.res.Count("optional_operand_uses_decided_on_the_cfg", 1)
 					}
 				}
 			}
